@@ -19,8 +19,10 @@ META = dict(
               "after mj_forward (one event per efc row with order keys of efc_force and its bounds) validated by the "
               "trace specification ConstraintTrace.tla with tlc.validate_traces",
     text="After mj_forward on generated models (joint/tendon friction loss and limits, joint/connect/weld equalities, "
-         "sphere/capsule/box contacts of condim 1/3/4/6) under every solver x cone x {dense, sparse} with converged and "
-         "truncated iteration counts, islands on/off and the noslip pass, every constraint row is logged as an event; "
+         "sphere/capsule/box contacts of condim 1/3/4/6; a box settling on condim-6 contacts; independent trees with "
+         "different, saturated dof and tendon friction-loss bounds) under every solver x cone x {dense, sparse} with "
+         "converged and truncated iteration counts, islands on/off and the noslip pass, every constraint row is logged "
+         "as an event; "
          "TLC accepts a trace only if every friction-loss force is within +-frictionloss, every limit / frictionless / "
          "pyramid-edge force is >= 0, every elliptic contact has f_n >= 0 and f_n^2 >= ||f_t/mu||^2 (within 2e-10 absolute + 1e-9 relative), "
          "the rows have the documented layout, mj_contactForce equals the decoding of the rows, and qfrc_constraint = "
@@ -137,8 +139,41 @@ def model_rest(rng):
     return L, qpos, qvel
 
 
+def model_wheels(rng, order):
+    """independent trees (-> one constraint island each) whose friction-loss rows have DIFFERENT bounds:
+    three hinge flywheels, a two-hinge tree, and two slide trees whose friction loss sits on a tendon;
+    order 'desc': the largest bounds come first in efc order, 'asc': the smallest first.  No equality rows, no
+    contacts: the friction-loss rows are the first rows of efc.  Initial velocities saturate every row."""
+    big = [rng.choice([2.0, 3.0]), rng.choice([0.5, 0.8]), rng.choice([0.01, 0.03])]
+    pair = [rng.choice([1.0, 1.5]), rng.choice([0.05, 0.002])]
+    tf = [rng.choice([0.4, 0.6]), rng.choice([0.02, 0.004])]
+    if order == "asc":
+        big, pair, tf = big[::-1], pair[::-1], tf[::-1]
+    L = []
+    for k in range(3):
+        L.append("body name=w%d pos=%g,0,1" % (k, 0.5 * k))
+        L.append("joint body=w%d name=wj%d type=3 axis=0,1,0 frictionloss=%g" % (k, k, big[k]))
+        L.append("geom body=w%d name=wg%d type=2 size=0.1,0,0 mass=1 contype=0 conaffinity=0" % (k, k))
+    L.append("body name=p0 pos=2,0,1")
+    L.append("joint body=p0 name=pj0 type=3 axis=0,1,0 frictionloss=%g" % pair[0])
+    L.append("geom body=p0 name=pg0 type=2 size=0.1,0,0 mass=1 contype=0 conaffinity=0")
+    L.append("body name=p1 parent=p0 pos=0.3,0,0")
+    L.append("joint body=p1 name=pj1 type=3 axis=0,0,1 frictionloss=%g" % pair[1])
+    L.append("geom body=p1 name=pg1 type=2 size=0.08,0,0 mass=0.5 contype=0 conaffinity=0")
+    for k in range(2):
+        L.append("body name=t%d pos=%g,0,1" % (k, 3 + 0.5 * k))
+        L.append("joint body=t%d name=tj%d type=2 axis=1,0,0" % (k, k))
+        L.append("geom body=t%d name=tg%d type=2 size=0.1,0,0 mass=1 contype=0 conaffinity=0" % (k, k))
+        L.append("tendon name=tn%d frictionloss=%g" % (k, tf[k]))
+        L.append("wrapjoint tendon=tn%d joint=tj%d coef=1" % (k, k))
+    qpos = [0.0] * 7
+    qvel = [rng.choice([-1, 1]) * rng.uniform(8, 20) for _ in range(5)] + [rng.choice([-1, 1]) * rng.uniform(2, 5) for _ in range(2)]
+    return L, qpos, qvel
+
+
 FAMILIES = [("arm", model_arm), ("pile", model_pile), ("ball", model_ball)]
 REST_STEPS = [0, 40, 200]
+WHEEL_STEPS = [0, 2]
 
 
 def option_line(cfg):
@@ -259,6 +294,24 @@ def run(ctx):
                         meta.append(dict(fam="rest", cfg=cfg, steps=k, out=base + expected_outputs(s[:mk]), scen=len(meta),
                                          script_start=len(script), script_len=mk + 2))
                     script += s + ["free %d" % slot, "freemodel %d" % slot]
+    # directed: independent trees with different friction-loss bounds (dof and tendon friction, descending and
+    # ascending efc order), every solver x cone x {noslip off, on} x {islands on, off}
+    for solver in (0, 1, 2):
+        for cone in (0, 1):
+            for noslip in (0, 5):
+                for dis in (0, 1 << 18):
+                    cfg = dict(solver=solver, cone=cone, jac=0, iter=100, noslip=noslip, impratio=1, dis=dis, tol=1e-8)
+                    both = (not ctx.quick) or (noslip and not dis)
+                    orders = ["desc", "asc"] if both else [["desc", "asc"][(solver + cone + (dis > 0)) % 2]]
+                    for order in orders:
+                        for mi in range(1 if ctx.quick else 3):
+                            lines, qpos, qvel = model_wheels(rng, order)
+                            s, marks = scenario_script(slot, lines, qpos, qvel, cfg, WHEEL_STEPS)
+                            base = expected_outputs(script)
+                            for k, mk in zip(WHEEL_STEPS, marks):
+                                meta.append(dict(fam="wheels-" + order, cfg=cfg, steps=k, out=base + expected_outputs(s[:mk]),
+                                                 scen=len(meta), script_start=len(script), script_len=mk + 2))
+                            script += s + ["free %d" % slot, "freemodel %d" % slot]
     r = drv.run_script(exe, script, timeout=1500)
     if r.crashed:
         ctx.violation("crash", "harness died while stepping a generated model: " + r.crash_text(),
@@ -286,6 +339,21 @@ def run(ctx):
         seen_cfg.add((tr[0]["solver"], tr[0]["cone"]))
     if seen_ty != set(range(8)) or len(seen_cfg) != 6:
         raise Machinery("vacuous trace pool: row types %s, solver x cone %s" % (sorted(seen_ty), sorted(seen_cfg)))
+    # ... and, with the noslip pass on and >= 2 islands: saturated friction-loss rows (dof and tendon) in an island k > 0
+    # whose own bound is smaller than the bound of an earlier efc row (the row a wrong index would pick up)
+    sat_later = {1: 0, 2: 0}
+    nsat = 0
+    for tr, m in zip(traces, tmeta):
+        rows = [e for e in tr if e["op"] == "row" and e["ty"] in (1, 2)]
+        nsat += sum(e.get("sat", 0) for e in rows)
+        if not m["cfg"]["noslip"] or tr[0].get("nisland", 0) < 2:
+            continue
+        for e in rows:
+            if e.get("sat") and e.get("isl", -1) > 0 and any(p["hi"] > e["hi"] for p in rows if p["i"] < e["i"]):
+                sat_later[e["ty"]] += 1
+    if not sat_later[1] or not sat_later[2] or not nsat:
+        raise Machinery("vacuous trace pool: no saturated friction-loss row in an island k > 0 with a smaller bound than an "
+                        "earlier row under noslip (dof %d, tendon %d, saturated rows %d)" % (sat_later[1], sat_later[2], nsat))
     res = f_mc.result()
     ctx.tlc_ok(res, mc_name,
                need_actions=["MCBegin", "MCEq", "MCFric", "MCLimit", "MCFrictionless", "MCPyrFirst", "MCPyrNext",
@@ -381,9 +449,14 @@ def run(ctx):
     ctx.cov["rule"] = ("traces = mjData after mj_forward for %d scenarios: 3 generated model families (arm, pile, ball) x %d "
                        "models x %d solver/cone/jacobian/iterations/noslip/impratio/island settings covering every solver x "
                        "cone, recorded after %s steps, + the directed family 'rest' (a box settling on condim-6 contacts) "
-                       "under every solver x cone x {noslip off, on} after %s steps; %d constraint rows; non-trivial = at "
-                       "least one constraint row; distinct = distinct recorded traces" % (
-                           len(traces), nmodels, len(cfgs), steps, REST_STEPS, nrows))
+                       "under every solver x cone x {noslip off, on} after %s steps, + the directed family 'wheels' (seven "
+                       "independent-tree dofs, one island each tree, dof and tendon friction loss with different bounds "
+                       "in descending / ascending efc order, saturated) under every solver x cone x {noslip off, on} x "
+                       "{islands on, off} after %s steps; %d constraint rows, %d saturated friction-loss rows, %d / %d "
+                       "saturated dof / tendon friction rows in an island k > 0 under noslip whose bound is smaller than "
+                       "an earlier row's; non-trivial = at least one constraint row; distinct = distinct recorded traces" % (
+                           len(traces), nmodels, len(cfgs), steps, REST_STEPS, WHEEL_STEPS, nrows, nsat, sat_later[1],
+                           sat_later[2]))
 
 
 def replay(ctx, rp):
